@@ -54,9 +54,9 @@ func Load(repoDir string, rel []string, whole bool, overlay map[string][]byte) (
 		}
 	}
 	cfg := &packages.Config{
-		Mode:  mode,
-		Dir:   repoDir,
-		Tests: false,
+		Mode:    mode,
+		Dir:     repoDir,
+		Tests:   false,
 		Overlay: overlay,
 		Env: append(os.Environ(), "GOFLAGS=-mod=mod", "GOPROXY=off", "GOSUMDB=off", "GOTOOLCHAIN=local",
 			"GOWORK=off"),
